@@ -11,7 +11,7 @@ class C03(Prop):
     check_mod = "C03"
     drivers = [dict(pkg="internal/core", test="TestVerifC03", timeout=600),
                # end to end: real protocol clients against a running Core; its own case count (attempts)
-               dict(pkg="internal/core", test="TestVerifC03E2E", timeout=600, e2e=True)]
+               dict(pkg="internal/core", test="TestVerifC03E2E", timeout=420, e2e=True)]
     n_quick = 300
     n_thorough = 12000
     shard = 100
@@ -103,6 +103,12 @@ class C03(Prop):
             if replay:
                 env["VERIF_REPLAY"] = replay
             rc, out = vlib.run_driver(wd, d["pkg"], d["test"], env, timeout=d.get("timeout", 900))
+            if rc != 0:   # the work directory does not survive the run: keep the whole output for the post-mortem
+                try:
+                    with open(os.path.join(vlib.WORK, "C03-last-failure-%s.log" % d["test"]), "w") as fh:
+                        fh.write(out)
+                except OSError:
+                    pass
             return d, rc, out, vlib.read_jsonl(outp)
 
         with ThreadPoolExecutor(max_workers=len(self.drivers)) as ex:
